@@ -426,6 +426,20 @@ def oracle(prog, verdict, log):
     expect_close = {}        # fiber -> (expected result, chan)  set by a close on a live waiter
     select_result = {}       # (f, i) -> result
     select_waited_checked = set()
+    inflight = {}            # fiber -> (item, where): a live task carrying an item for it was seen in the run queue
+    same_chan_select = any(op[0] in "sr" and len(set(cl[1] for cl in op[1])) != len(op[1]) for ops in fibers for op in ops)
+
+    def note_inflight(st, where):
+        for q in st["q"]:
+            parts = q.split(":")
+            try:
+                qf, exp = int(parts[0]), int(parts[-1])
+            except ValueError:
+                continue
+            val = parts[1:-2]
+            item = val[0] if len(val) == 1 and val[0].isdigit() else val[2] if len(val) == 3 and val[0] == "take" else None
+            if item is not None and qf < len(st["s"]) and st["s"][qf] == exp:
+                inflight[qf] = (item, where)
     last_state = None
 
     def check_state(st, where):
@@ -509,7 +523,7 @@ def oracle(prog, verdict, log):
                 for cf in sorted(completed):
                     mine = [x for x in ch0["r"] + ch0["w"] if x[0] == cf and live(x, stx)]
                     if mine:
-                        fails.append((SELF_MATCH, "fiber %d has a current registration %r on channel %d although its operation has "
+                        fails.append((SELF_MATCH if same_chan_select else "registration-left-behind", "fiber %d has a current registration %r on channel %d although its operation has "
                                       "returned (left behind by a select that was matched with itself)" % (cf, mine, c0)))
             completed = set()
         if e[0] == "E":
@@ -522,16 +536,18 @@ def oracle(prog, verdict, log):
             last_state = e[1]
             check_state(e[1], e[0])
             check_kept(e[1], "%s@%d" % (e[0], idx))
+            note_inflight(e[1], "%s@%d" % (e[0], idx))
             continue
         if e[0] == "B":
             _, f, i, st = e
             last_state = st
             check_state(st, "B %d %d" % (f, i))
             check_kept(st, "B %d %d" % (f, i))
+            note_inflight(st, "B %d %d" % (f, i))
             for c0, ch0 in st["chans"].items():
                 mine = [x for x in ch0["r"] + ch0["w"] if x[0] == f and live(x, st)]
                 if mine:
-                    fails.append((SELF_MATCH, "fiber %d begins op %d while it still has a current registration %r on channel %d "
+                    fails.append((SELF_MATCH if same_chan_select else "registration-left-behind", "fiber %d begins op %d while it still has a current registration %r on channel %d "
                                   "(left behind by a select that was matched with itself)" % (f, i, mine, c0)))
             for q in st["q"]:      # a task whose expected sched_id is no longer its fiber's: the filter must drop it
                 parts = q.split(":")
@@ -559,6 +575,16 @@ def oracle(prog, verdict, log):
             continue
         # E
         _, f, i, res = e
+        if f in inflight:
+            # an item was on its way to this fiber in a live task: that is what its operation must return (without
+            # ev/cancel / deadlines nothing may re-schedule a fiber that already has its wake-up task)
+            item, where = inflight.pop(f)
+            got = res.split(":")[-1]
+            if got != item and not timing:
+                fails.append((SELF_MATCH if same_chan_select else "handed-value-dropped",
+                              "fiber %d op %d returned %s although a live task carrying item %s for it was queued (%s): the item was "
+                              "handed out and is received by nobody%s" % (f, i, res, item, where,
+                              " (a select matched with itself was matched a second time before it ran)" if same_chan_select else "")))
         if f not in open_op or open_op[f][0] != i:
             fails.append(("result-without-operation", "E %d %d %s without matching B (resumed twice?)" % (f, i, res)))
             continue
@@ -688,7 +714,7 @@ def oracle(prog, verdict, log):
             for c0, ch0 in final["chans"].items():
                 mine = [x for x in ch0["r"] + ch0["w"] if x[0] == f and live(x, final)]
                 if mine:
-                    fails.append((SELF_MATCH, "fiber %d ended (%s) with a current registration %r on channel %d" % (f, s0, mine, c0)))
+                    fails.append((SELF_MATCH if same_chan_select else "registration-left-behind", "fiber %d ended (%s) with a current registration %r on channel %d" % (f, s0, mine, c0)))
     # supervisor events: a supervised fiber that finished has produced exactly one event (:ok or :error, matching how
     # it ended), received by somebody or still queued in its supervisor channel - unless that channel was closed
     for f in range(len(fibers)):
